@@ -496,12 +496,42 @@ fn fx_shape(f: &FXRates) -> Result<(), String> {
     Ok(())
 }
 
+fn cal_shape(c: &rateslib::calendars::Cal) -> Result<(), String> {
+    let (hols, mask) = hooks::cal_parts(c);
+    if let Some(h) = hols.iter().find(|h| !c.is_holiday(h) || c.is_bus_day(h)) {
+        return Err(format!("listed-holiday-not-closed: {}", h));
+    }
+    for z in 19_700i64..19_707 {
+        let d = to_ndt(z);
+        let wd = chrono::Datelike::weekday(&d).num_days_from_monday() as u8;
+        if mask.contains(&wd) && c.is_bus_day(&d) {
+            return Err(format!("masked-weekday-is-a-business-day: {}", d));
+        }
+    }
+    Ok(())
+}
+
 /// shape invariants of a successfully loaded object
 fn invariants(o: &VerifObj) -> Result<(), String> {
     match o {
         VerifObj::Dual(d) => dual_shape(d),
         VerifObj::Dual2(d) => dual2_shape(d),
-        VerifObj::Cal(_) | VerifObj::UnionCal(_) => Ok(()),
+        // a loaded calendar closes every date it lists as a holiday and every weekday of its mask (whatever order the
+        // document listed them in)
+        VerifObj::Cal(c) => cal_shape(c),
+        VerifObj::UnionCal(u) => {
+            let (members, settle) = hooks::unioncal_parts(u);
+            for c in members.iter().chain(settle.iter().flatten()) {
+                cal_shape(c)?;
+            }
+            for c in members.iter() {
+                let (hols, _) = hooks::cal_parts(c);
+                if let Some(h) = hols.iter().find(|h| u.is_bus_day(h)) {
+                    return Err(format!("member-holiday-is-a-business-day: {}", h));
+                }
+            }
+            Ok(())
+        }
         VerifObj::NamedCal(n) => {
             let (name, _) = hooks::namedcal_parts(n);
             match NamedCal::try_new(&name) {
@@ -1189,7 +1219,7 @@ fn evidence_meta(ctx: &Ctx, ncases: usize) -> Meta {
          {},true} or a container by {0,null,[],{}}, swap two sibling values, give an array document every other shape of compatible element count) and, for documents of <= 26 (44) nodes, \
          EVERY pair of mutations. Oracle: the call returns (a panic or an abnormal child exit is a violation); Ok(v) => \
          v satisfies its shape invariants (Dual: |vars| = |dual|; Dual2: also n x n; FXRates: n = quotes + 1, n x n, \
-         quoted pairs answer with exactly the stored quote, one settlement date for all quotes; PPSpline: n = |t| - k, |c| = n, coefficients well-formed; NamedCal: behaves as its name). \
+         quoted pairs answer with exactly the stored quote, one settlement date for all quotes; PPSpline: n = |t| - k, |c| = n, coefficients well-formed; NamedCal: behaves as its name; Cal / UnionCal: every listed holiday and every masked weekday is closed). \
          Non-trivial: mutated documents, extreme day counts, improper site layouts, offsets beyond +-1200 months.",
         json!({"cases": ncases, "child_process": true}),
     )
